@@ -217,6 +217,10 @@ func registerRT(e *Engine) {
 		ex.st["env"] = args[0]
 		return nil, nil
 	})
+	e.reg(rtPkg+".Spawn", func(ex *Exec, fn *ssa.Function, args []Value) (Value, *PanicV) {
+		_, pan := ex.callAny(args[0], nil, nil)
+		return nil, pan
+	})
 	e.reg(rtPkg+".Block", func(ex *Exec, fn *ssa.Function, args []Value) (Value, *PanicV) {
 		ex.blocked(ex.argString(args[0]))
 		return nil, nil
